@@ -127,8 +127,9 @@ def run(ctx):
     rng = ctx.rng
     e2e = 0
     for S_, nbytes in ((4, 70), (40, 40 * 4 + 7), (64, 64 * 5 + 33), (100, 100 * 3 + 1), (2000, 16 * 2000 + 123)):
-        files = {"a.bin": L.gen_content(rng, "random", nbytes), "b.bin": L.gen_content(rng, "random", max(1, nbytes // 3))}
-        GS = (1, 2, 4, 5, 6, 8, 15, 17, 32)
+        # 1 damaged slice + the 2 slices of the deleted file = 3 lost slices against 5 blocks: the Repairs really reconstruct
+        files = {"a.bin": L.gen_content(rng, "random", nbytes), "b.bin": L.gen_content(rng, "random", max(1, 2 * S_ - 1))}
+        GS = (1, 2, 4, 5, 6, 8, 15, 17, 32, 0)        # 0 = the option's default (rsec16.DefaultNumGoroutines)
         sets = [P.PSet(dict(files), S_, 5, g=g) for g in GS]
         for s_ in sets:
             s_.bystanders = {}
@@ -153,9 +154,28 @@ def run(ctx):
         for g, line, o in zip(GS, rl, ri):
             e2e += 1
             ctx.count("repair-g|%d|%d" % (S_, g), g > 1)
+            after_ = L.apply_changed(dmg, o["changed"])
+            if g == 1 and (o["res"] != "ok" or any(after_.get(sets[0].paths[n_]) != files[n_] for n_ in files)):
+                report("Repair of 3 lost slices with 5 recovery blocks did not restore the files (slice size %d): %s" % (S_, o["res"]),
+                       {"lines": [line], "class": {"op": "repair-goroutines"}})
             if o["res"] != ri[0]["res"] or o["changed"] != ri[0]["changed"]:
                 report("Repair result with %d goroutines differs from the single-goroutine result (slice size %d): %s vs %s" % (g, S_, o["res"], ri[0]["res"]),
                        {"lines": [rl[0], line], "class": {"op": "repair-goroutines"}})
+    # 4. the DEFAULT of the goroutine option is a usable count on every build: with the `noasm` tag (and on CPUs of unknown
+    # vendors) the CPU library reports 0 physical cores; Create and Repair with the option left at 0 must still work
+    try:
+        vh_na = ctx.build_harness(tags="verif noasm", name="vhna")
+        dg = ctx.run_lines(vh_na, ["c12 defaultg"])[0]
+        ps_na = P.PSet({"a.bin": L.gen_content(rng, "random", 50), "b.bin": L.gen_content(rng, "random", 9)}, 4, 3, g=0)
+        ps_na.bystanders = {}
+        cna = L.parse_result(ctx.run_lines(vh_na, [ps_na.create_line("mem")])[0])
+        ctx.count("default-goroutines-noasm", True)
+        dist["default_goroutines_noasm_build"] = dg
+        if not dg.isdigit() or int(dg) < 1 or cna["res"] != "ok":
+            report("with the goroutine option at its default, a build with the noasm tag (no CPU detection) gets %s goroutines; Create: %s" % (dg, cna["res"]),
+                   {"lines": ["c12 defaultg", ps_na.create_line("mem")], "build_tags": "verif noasm", "class": {"op": "default-goroutines"}})
+    except Exception as e:
+        dist["default_goroutines_noasm_build"] = "not run: %s" % str(e)[:200]
     ctx.report_genlink(gen_fail, "GoLinkC12")
     return ctx.finish(
         "proof",
